@@ -99,8 +99,6 @@ def cases(tier, seed):
     idx = list(range(len(D)))
     def ok(base, prog):
         dels = [D[i] for i in prog if D[i][0] == "delete"]
-        if dels and base not in ("boxes", "box_loft"):
-            return False
         if base not in ("boxes", "box_loft"):
             # a merged (slave) patch on single operations of a shape duplicates their vertices and cuts the
             # shape's chops off from them: chopping would be the script's job, which this alphabet does not do
@@ -161,15 +159,16 @@ def build_base(base):
         ents += [b, lo]
     elif base == "cylinder":
         c = cb.Cylinder([0, 0, 0], [0, 0, 1.5], [0.7, 0, 0])
-        c.chop_axial(count=3)
-        c.chop_radial(count=2)
-        c.chop_tangential(count=4)
+        # every operation chopped on its own (same count everywhere) so that any of them can be deleted
+        for op in c.operations:
+            for a in range(3):
+                op.chop(a, count=2)
         ents.append(c)
     else:
         h = cb.Hemisphere([3, 0, 0], [4, 0, 0], [0, 0, 1])
-        h.chop_axial(count=3)
-        h.chop_radial(count=2)
-        h.chop_tangential(count=3)
+        for op in h.operations:
+            for a in range(3):
+                op.chop(a, count=2)
         b = cb.Box([0, 0, 0], [1, 1, 1])
         for a, c in enumerate((2, 3, 4)):
             b.chop(a, count=c)
